@@ -11,7 +11,7 @@ import lib
 from lib import zlit, vlist
 
 LEVEL = "proof"
-UNITS = ["GenTable", "GenTableEnums"]
+UNITS = ["GenTable", "GenTableEnums", "GenTableFront"]
 NONE_BIT = 24
 M32 = 0xFFFFFFFF
 
@@ -99,6 +99,12 @@ def gen_table(rng, u, kind, n):
             t.append([route, k, m, gen_sources(rng, route, "through" if rng.random() < through else "")])
         return t
     t = [gen_entry(rng, u, px, pool, through) for _ in range(n)]
+    if kind == "sorted" and t and rng.random() < 0.25:
+        # exact repeats of a key and mask (same or another route): legitimate when listed by generality
+        for _ in range(rng.randint(1, 2)):
+            e = rng.choice(t)
+            route = rng.choice(pool)
+            t[rng.randrange(len(t))] = [route, e[1], e[2], gen_sources(rng, route, "")]
     if kind == "sorted":
         t.sort(key=generality)                         # stable
     elif kind == "malformed":
@@ -180,7 +186,14 @@ def gen_family(rng, u):
 def gen_case(rng, i):
     u = gen_universe(rng)
     op = rng.choice(["rde", "rde", "oc_min", "oc_min", "oc_min", "oc_min", "oc", "oc", "mt", "mt", "mts",
-                     "seq", "family"])
+                     "seq", "family", "rde_nc", "new"])
+    if op == "new":
+        route = [rng.randrange(24) for _ in range(rng.randint(0, 5))]
+        route += rng.sample(route, rng.randint(0, len(route)))           # repeats
+        rng.shuffle(route)
+        srcs = None if rng.random() < 0.4 else [rng.choice([None] + list(range(24))) for _ in range(rng.randint(0, 4))]
+        key, mask = gen_pattern(rng, u, 0.3)
+        return dict(op="new", kind="entry", nv=0, route=route, key=key, mask=mask, sources=srcs)
     if op == "seq":
         u["pos"] = u["pos"][:rng.choice([3, 4, 4, 5])]
         u["bmask"] |= ~sum(1 << b for b in u["pos"]) & M32 if rng.random() < 0.5 else 0
@@ -196,8 +209,13 @@ def gen_case(rng, i):
     kind = rng.choice(["sorted", "sorted", "orth"])
     if op == "rde":
         kind = rng.choice(["sorted", "orth", "any", "any", "malformed"])
+    if op == "rde_nc":
+        kind = rng.choice(["orth", "orth", "any"])       # "any": outside its documented domain, model tie only
     n = rng.choice([0, 1, 2, 3, 4, 5, 6, 7, 8, 9, 10, 12, 14, 16])
     c = dict(op=op, kind=kind, nv=len(u["pos"]))
+    if op in ("mt", "mts") and rng.random() < 0.4:
+        # a caller-supplied method list: any order, repeats, a single method, none
+        c["methods"] = rng.choice([[], [1], [2], [2, 1], [1, 1, 2], [2, 2], [1, 2]])
     if op == "mts":
         chips = [[x, y] for x in range(2) for y in range(2)]
         rng.shuffle(chips)
@@ -334,7 +352,7 @@ def clause_check(O, T, target):
     return None
 
 
-def fail_check(out, target, O, which):
+def fail_check(out, target, O, which, strict=True):
     """the documented error must report the best size reached, which must be above the target"""
     final, tgt = out[1], out[2]
     sizes = out[-1]
@@ -353,7 +371,9 @@ def fail_check(out, target, O, which):
     best = min(reached)
     if final != best:
         return "error: error reports best size %r, best reached is %d" % (final, best)
-    if best <= target:
+    # (with methods=() only _identity runs and its strict `<` rejects a table of exactly the target's
+    #  length; the property's sentence -- the error reports the best size reached -- still holds)
+    if best <= target and strict:
         return "error: target %d was reachable (size %d) but the error was raised" % (target, best)
     return None
 
@@ -364,6 +384,13 @@ def oracle(c, out):
     if out[0] == "other":
         return "raised %s: neither a table nor MinimisationFailedError" % out[1]
     op = c["op"]
+    ms = c.get("methods")
+    which = ["len"] + [{1: "rde", 2: "oc"}[i] for i in (ms if ms is not None else [1, 2])]
+    if op == "new":
+        want = [sbits(c["route"]), c["key"], c["mask"], sbits(c["sources"] if c["sources"] is not None else [None])]
+        return None if out[1] == want else "entry: RoutingTableEntry(...) is %r, the sets given are %r" % (out[1], want)
+    if op == "rde_nc" and c["kind"] != "orth":
+        return None          # aliased entries with check_for_aliases=False: outside the documented domain
     if op == "mts":
         tables = [(tuple(chip), canon_in(t)) for chip, t in c["tables"]]
         tg = c["targets"]
@@ -373,7 +400,7 @@ def oracle(c, out):
             if chip not in dict(tables):
                 return "error: error names chip %r" % (chip,)
             o2 = list(out[:-1]) + [out[-1][repr(list(chip))]]
-            return fail_check(o2, tgt(chip), dict(tables)[chip], ["len", "rde", "oc"])
+            return fail_check(o2, tgt(chip), dict(tables)[chip], which, strict=bool(ms is None or ms))
         res = dict((tuple(chip), t) for chip, t in out[1])
         for chip in res:
             if chip not in dict(tables):
@@ -403,7 +430,8 @@ def oracle(c, out):
             return None
         return clause_check(O, rnd[1], None if spec["no_raise"] else spec["target"])
     if out[0] == "fail":
-        return fail_check(out, c["target"], O, dict(rde=["rde"], oc_min=["oc"], mt=["len", "rde", "oc"])[op])
+        return fail_check(out, c["target"], O, dict(rde=["rde"], rde_nc=["rde"], oc_min=["oc"], mt=which)[op],
+                          strict=bool(op != "mt" or ms is None or ms))
     return clause_check(O, out[1], c["target"])
 
 
@@ -438,7 +466,7 @@ def coq_result(out):
 
 
 HEADER = """From Coq Require Import ZArith List Bool. Import ListNotations. Open Scope Z_scope.
-Require Import Rig.Model.Base Rig.Model.Table Rig.Spec.Table.
+Require Import Rig.Model.Base Rig.Model.Table Rig.Model.TableFront Rig.Spec.Table.
 Definition E := mkEntry.
 Definition table_eqb (a b : table) : bool :=
   Nat.eqb (length a) (length b) && forallb (fun p => entry_eqb (fst p) (snd p)) (combine a b).
@@ -481,9 +509,19 @@ def coq_chip(c):
     return "(%s, %s)" % (zlit(c[0]), zlit(c[1]))
 
 
+def coq_methods(ms):
+    return vlist({1: "MRde", 2: "MOc"}[i] for i in ms)
+
+
 def model_exprs(c, out):
     """-> list of (label, model expression, implementation literal, eqb, validator expression or None)"""
     op = c["op"]
+    if op == "new":
+        call = "entry_new %s %s %s %s" % (vlist(zlit(r) for r in c["route"]), zlit(c["key"]), zlit(c["mask"]),
+                                          "None" if c["sources"] is None else "(Some %s)" % vlist(
+                                              "None" if x is None else "(Some %s)" % zlit(x) for x in c["sources"]))
+        lit = coq_entry(out[1]) if out[0] == "ok" and len(out[1]) == 4 and out[1][0] != "types" else "(E 0 0 0 (-1))"
+        return [("RoutingTableEntry.__new__", call, lit, "entry_eqb", None)]
     if op == "mts":
         ts = vlist("(%s, %s)" % (coq_chip(chip), coq_table(canon_in(t))) for chip, t in c["tables"])
         tg = c["targets"]
@@ -503,6 +541,9 @@ def model_exprs(c, out):
             val = None
         else:
             lit, val = "TablesOther", None
+        if c.get("methods") is not None:
+            return [("minimise_tables(methods=%r)" % c["methods"],
+                     "minimise_tables_with %s %s %s" % (coq_methods(c["methods"]), ts, tgl), lit, "outcome_eqb", val)]
         return [("minimise_tables", "minimise_tables %s %s" % (ts, tgl), lit, "outcome_eqb", val)]
     if op == "seq":
         exprs = []
@@ -527,8 +568,12 @@ def model_exprs(c, out):
                 lit = "(Failed %s)" % zlit(rnd[1]) if rnd[0] == "fail" else "OtherError"
                 exprs.append(("ordered_covering round %d" % (i + 1), call, lit, "(res_eqb ta_eqb)", None))
         return exprs
-    fn = dict(rde="remove_default", oc_min="oc_minimise", mt="minimise_table")[op]
+    fn = dict(rde="remove_default", rde_nc="remove_default_nocheck", oc_min="oc_minimise", mt="minimise_table")[op]
+    if op == "mt" and c.get("methods") is not None:
+        fn = "minimise_table_with %s" % coq_methods(c["methods"])
     val = "check_route_eq %s %s" % (O, coq_table(out[1])) if out[0] == "ok" else None
+    if op == "rde_nc" and c["kind"] != "orth":
+        val = None
     return [(fn, "%s %s %s" % (fn, O, coq_target(c["target"])), coq_result(out), "(res_eqb table_eqb)", val)]
 
 
@@ -536,6 +581,8 @@ def model_exprs(c, out):
 def nontrivial(c, out):
     if out[0] in ("other", "hang"):
         return False
+    if c["op"] == "new":
+        return len(c["route"]) >= 2
     if c["op"] == "seq":
         return any(len(O) >= 3 and r[0] == "ok" and len(r[1]) < len(O) for O, r in out[1])
     ts = [t for _, t in c["tables"]] if c["op"] == "mts" else [c["table"]]
@@ -585,13 +632,15 @@ def run(chk, args):
     for c, o in zip(cases, outs):
         chk.count("op:" + c["op"])
         chk.count("kind:" + c["kind"])
+        if c.get("methods") is not None:
+            chk.count("methods:%r" % (c["methods"],))
         chk.count("outcome:" + (o[0] if o[0] not in ("rounds", "seq") else
                                 o[0] + ":" + "/".join(r[0] if o[0] == "rounds" else r[1][0] for r in o[1])))
         if c["op"] == "seq":
             for st, (O, r) in zip(c["steps"], o[1]):
                 if st["seed_route"] is not None and len(O) > len(st["table"]):
                     chk.count("seq:call-seeded-with-earlier-merge-products")
-        elif c["op"] != "mts":
+        elif c["op"] not in ("mts", "new"):
             chk.count("entries:%d" % len(c["table"]))
             chk.count("target:" + ("none" if c["target"] is None else
                                    "0" if c["target"] == 0 else
@@ -632,7 +681,7 @@ def run(chk, args):
                 nval += 1
             if bad_corr:
                 ci, label, call = bad_corr[:3]
-                show = {"(res_eqb table_eqb)": "show_res show_table", "(res_eqb ta_eqb)": "show_res show_ta",
+                show = {"entry_eqb": "(fun e => show_table [e])", "(res_eqb table_eqb)": "show_res show_table", "(res_eqb ta_eqb)": "show_res show_ta",
                         "outcome_eqb": "show_outcome"}
                 try:
                     mv = chk.coq_eval(HEADER, ["%s (%s)" % (show[bad_corr[3]], call)], name="diag")[0]
@@ -664,6 +713,9 @@ def run(chk, args):
                             "streams: sorted by generality (overlapping), orthogonal (shuffled), any order and "
                             "malformed ('!' bits) for default-route removal only; targets None/0/len-1/len/above/"
                             "random; operations rde, oc_minimise, ordered_covering x2 rounds with aliases, "
+                            "remove_default(check_for_aliases=False), RoutingTableEntry construction (repeats, omitted sources), "
+                            "minimise_table(s) with caller-supplied method lists ((), single, repeated, reversed), sorted tables "
+                            "with exact key/mask repeats, "
                             "minimise_table, minimise_tables (None/int/dict; half of them with chips whose tables are copies differing "
                             "only in sources), sequences of 2-3 calls in one interpreter whose later tables contain the "
                             "key-masks of earlier merge products, a directed family of overlapping same-route entries with "
